@@ -1,7 +1,8 @@
 (* C08 — Expansion never fails silently: bad $refs become errors or stay in place. *)
 From Coq Require Import List String Bool.
 From Spec Require Import Base.Json Base.Url Codec.Types Codec.Codec Expand.Expand Expand.ExpandFacts
-  Expand.ExpandSim Expand.ExpandSimCheck Expand.ExpandCycle Expand.ExpandElem Expand.ExpandTermG Expand.ExpandComplete.
+  Expand.ExpandSim Expand.ExpandSimCheck Expand.ExpandCycle Expand.ExpandElem Expand.ExpandTermG Expand.ExpandComplete
+  Expand.ExpandChain Expand.ExpandSpecSim Codec.Gen_Tables Codec.CodecFacts Expand.ExpandExample.
 Import ListNotations.
 
 (* strict mode: a schema reference that cannot be resolved — missing document, missing pointer target, a target
@@ -67,3 +68,48 @@ Theorem C08_no_spurious_error : forall E docs cwd OP ctx_base rid nodes live,
     exists s' j', exp E docs cwd OP ctx_base live d s parents rroot base j = Done (s', j').
 Proof. exact checked_exp_succeeds. Qed.
 Print Assumptions C08_no_spurious_error.
+
+(* ---------- the whole of ExpandSpec (Expand/ExpandChain.v, ExpandSpecSim.v) ---------- *)
+(* "... and returns no error when every $ref it has to follow is resolvable": on a checked graph in which every schema
+   reference (check_resolvable) and every hop of every parameter / response / path-item chain (check_eresolvable)
+   designates an object, ExpandSpec RETURNS A DOCUMENT - not an error, not an exhausted fuel, not a step outside the modelled
+   fragment - from every consistent state (whatever the cache and the memo hold), for every fuel above the number of
+   references of the schema graph and the length of the chains, with AbsoluteCircularRef on or off. *)
+Local Open Scope string_scope.
+Theorem C08_expand_spec_no_spurious_error : forall E docs cwd OP ctx_base rid nodes enodes bad0 ranks live,
+  (forall lu ld, live = Some (lu, ld) -> doc_at docs cwd lu = Some ld) ->
+  o_cont OP = false -> o_skip OP = false ->
+  check_nodes E docs cwd OP ctx_base rid nodes = true -> check_enodes E docs cwd enodes nodes = true ->
+  check_chains E docs cwd nodes enodes bad0 ranks = true -> check_pis enodes = true ->
+  check_resolvable E docs cwd OP ctx_base rid nodes = true -> check_eresolvable E docs cwd enodes = true ->
+  forall d root_url m s,
+  List.length (refs_of nodes) < d -> forallb (fun kr => Nat.ltb (snd kr) (S d)) ranks = true ->
+  check_root ctx_base nodes enodes bad0 m = true ->
+  Inv2 E docs cwd rid (GN nodes) bad0 s -> Coh cwd (Some root_url) ctx_base ->
+  exists s' out, expand_spec E docs cwd OP ctx_base live d root_url (JObj m) s = Done (s', out).
+Proof.
+  intros E docs cwd OP ctx_base rid nodes enodes bad0 ranks live Hlive Hstrict Hskip Hck Hcke Hckc Hckp Hres Heres d root_url m s Hlen Hranks Hroot Hs Hcoh.
+  exact (checked_spec_total E docs cwd OP ctx_base rid nodes enodes bad0 ranks live Hlive Hstrict Hskip Hck Hcke Hckc Hckp d root_url m s Hres Heres Hlen Hranks Hroot Hs Hcoh).
+Qed.
+Print Assumptions C08_expand_spec_no_spurious_error.
+
+(* non-vacuity: the two-document specification of ExpandExample.v - every hypothesis is decided true by computation; the
+   theorem then gives the result for EVERY consistent state and both settings of AbsoluteCircularRef *)
+Example C08_spec_example : forall abs s, Inv2 gen_env sp_docs "/" "" (GN sp_nodes) sp_bad0 s ->
+  exists s' out, expand_spec gen_env sp_docs "/" (mkOpts false false abs) sp_root_url sp_live 12 sp_root_url (JObj sp_members) s = Done (s', out).
+Proof.
+  intros abs s Hs. set (OP := mkOpts false false abs).
+  assert (Hck : check_nodes gen_env sp_docs "/" OP sp_root_url "" sp_nodes = true) by (destruct abs; vm_compute; reflexivity).
+  assert (Hres : check_resolvable gen_env sp_docs "/" OP sp_root_url "" sp_nodes = true) by (destruct abs; vm_compute; reflexivity).
+  assert (Hlive : forall lu ld, sp_live = Some (lu, ld) -> doc_at sp_docs "/" lu = Some ld) by (intros lu ld E; inversion E; subst; vm_compute; reflexivity).
+  assert (Hcoh : Coh "/" (Some sp_root_url) sp_root_url) by (intros ru E; inversion E; subst; reflexivity).
+  assert (Hcke : check_enodes gen_env sp_docs "/" sp_enodes sp_nodes = true) by (vm_compute; reflexivity).
+  assert (Hckc : check_chains gen_env sp_docs "/" sp_nodes sp_enodes sp_bad0 sp_ranks = true) by (vm_compute; reflexivity).
+  assert (Hckp : check_pis sp_enodes = true) by (vm_compute; reflexivity).
+  assert (Heres : check_eresolvable gen_env sp_docs "/" sp_enodes = true) by (vm_compute; reflexivity).
+  assert (Hlen : List.length (refs_of sp_nodes) < 12) by (vm_compute; repeat constructor).
+  assert (Hranks : forallb (fun kr => Nat.ltb (snd kr) 13) sp_ranks = true) by (vm_compute; reflexivity).
+  assert (Hroot : check_root sp_root_url sp_nodes sp_enodes sp_bad0 sp_members = true) by (vm_compute; reflexivity).
+  exact (C08_expand_spec_no_spurious_error gen_env sp_docs "/" OP sp_root_url "" sp_nodes sp_enodes sp_bad0 sp_ranks sp_live Hlive eq_refl eq_refl
+           Hck Hcke Hckc Hckp Hres Heres 12 sp_root_url sp_members s Hlen Hranks Hroot Hs Hcoh).
+Qed.
